@@ -1127,3 +1127,34 @@ hl_peek!(c09_peek_lowest_index, LowestIndex, 3, 4);
 
 
 
+
+/// Per-method bulk paths: a method may override `Method::over`. Past(3) after j = 0..=3 single steps (every
+/// rotation phase of its ring), then a chunk of 4 through `over` (longer than the window): the outputs are
+/// those of `next` element by element on a clone, bit for bit.
+#[kani::proof]
+#[kani::unwind(8)]
+fn c09_past_over_after_steps() {
+	let init: ValueType = kani::any();
+	let mut p = Past::new(3, &init).unwrap();
+	let j: u8 = kani::any();
+	kani::assume(j <= 3);
+	let mut i = 0;
+	while i < 3 {
+		if i < j {
+			let x: ValueType = kani::any();
+			let _ = p.next(&x);
+		}
+		i += 1;
+	}
+	let mut q = p.clone();
+	let xs: [ValueType; 4] = kani::any();
+	let out = p.over(&xs[..]);
+	assert!(out.len() == 4, "one output per input");
+	let mut k = 0;
+	while k < 4 {
+		let y = q.next(&xs[k]);
+		assert!(out[k].to_bits() == y.to_bits(), "Past::over equals next element by element");
+		k += 1;
+	}
+	kani::cover!(j == 2, "ring rotated before the chunk");
+}
